@@ -48,6 +48,12 @@ def base_cases(tier, rng, both_modes=True, tol_only=False, strict_only=False, n_
         for rest in ['', 'a', '\\x{a}', '{a}', ' a', '\n\na', '%c\n', '$x$', '\\begin{e}b\\end{e}', '}', '{']:
             for tol in modes:
                 yield {'tol': tol, 'ctx': 'default', 's': first + rest}
+    # environment names: every character of the documented name alphabet (and neighbours outside it), alone and inside a name
+    for ch in list('*._ :/!^()[]-') + ['a', 'Z', '0', '9', ';', '<', '=', '>', '?', '@', '\\', ',', '+', "'", '`', '|', '~', '&', '#', '\t', '\u00e9', '{', '}', '$', '%']:
+        for name in (ch, 'x' + ch + 'y', ch + 'z'):
+            for s in ('\\begin{%s}b\\end{%s}' % (name, name), '\\begin {%s}' % name, 'a\\end{%s}' % name):
+                for tol in modes:
+                    yield {'tol': tol, 'ctx': 'default', 's': s}
     n = n_random if n_random is not None else (6000 if tier == 'quick' else 150000)
     names = ['A', 'B', 'C', 'D', 'E', 'default', 'default']
     for _ in range(n):
